@@ -850,6 +850,11 @@ func generate(repo, out string) error {
 		return err
 	}
 
+	// 4ai. the Ryu core and the AppendFloat64f pipeline (float64ToDecimalExactInt, float64ToDecimal, decimalLen64, dec64.appendF, sizeSlice and their helpers) as terms of QF.RY (ryuast.go)
+	if err := writeIfChanged(filepath.Join(out, "RyuFns.lean"), []byte(ryuFnsLean(repo))); err != nil {
+		return err
+	}
+
 	// 4m. the three writers of qframe.go (ToJSON, ToCSV, String) as terms of QF.JS / QF.CS / QF.PS (wast.go)
 	if err := writeIfChanged(filepath.Join(out, "Writers.lean"), []byte(writersLean(repo, root, strs))); err != nil {
 		return err
